@@ -76,7 +76,12 @@ class Evolver:
     def new_field_type(self, m):
         r = self.rng
         pool = self.pool_for(m)
-        k = r.weighted([("scalar", 5), ("array", 4), ("ref", 4 if pool else 0), ("newmsg", 3), ("newenum", 1)])
+        k = r.weighted([("scalar", 5), ("array", 4), ("ref", 4 if pool else 0), ("newmsg", 3), ("newenum", 1), ("newmatrix", 2)])
+        if k == "newmatrix":
+            # multi-dimensional array the documented way: an alias of an array used as element
+            row = sg.Alias(self.s.fresh("Als"), sg.Array(self.g.scalar(), r.randint(1, 4), r.chance(0.7)))
+            self.place(row, m)
+            return sg.Array(row, r.randint(1, 4), r.chance(0.7))
         if k == "scalar":
             return self.g.scalar()
         if k == "ref":
@@ -102,7 +107,7 @@ class Evolver:
                 return sg.Array(nm, r.randint(1, 3), r.chance(0.7))
             return nm
         # array
-        elem_pool = [t for t in pool if t.kind in ("enum", "message") or (t.kind == "alias" and t.target.kind != "array")]
+        elem_pool = [t for t in pool if t.kind in ("enum", "message", "alias")]
         elem = r.choice(elem_pool) if elem_pool and r.chance(0.5) else self.g.scalar()
         return sg.Array(elem, r.randint(1, self.cfg.max_cap), r.chance(0.6))
 
@@ -166,21 +171,51 @@ class Evolver:
             if k == "msg":
                 # bias towards deep and towards non-last positions
                 m, depth = r.choice(sorted(ext_msgs, key=lambda x: -x[1])[: max(1, len(ext_msgs) // 2 + 1)]) if r.chance(0.5) else r.choice(ext_msgs)
-                before = [(list(m.fields), list(m.nested), list(self.s.defs))]
-                n = self.append_fields(m)
-                if not fits(self.s):
-                    m.fields, m.nested, self.s.defs = before[0]
-                    continue
-                done.append({"step": "append", "message": ".".join(m.path()), "fields": n, "depth": depth})
+                target = m
+                if self.grow_message(m, depth, done):
+                    pass
             else:
                 a, depth = r.choice(ext_arrs)
-                old = a.cap
-                a.cap = min(65535, old + r.choice([1, 1, 2, 3, old, old * 2 + 1, 7]))
-                if not fits(self.s):
-                    a.cap = old
-                    continue
-                done.append({"step": "grow", "from": old, "to": a.cap, "depth": depth})
+                target = a
+                self.grow_array(a, depth, done)
+            # compound growth: also extend something *inside* what was just extended
+            # (extended elements of a grown array, grown arrays inside an extended message, ...)
+            if r.chance(0.6):
+                sub = target if target.kind == "message" else target.elem
+                inner = []
+                seen2 = set()
+                for t, d in reachable_types(sub) if sub.kind in ("message", "array", "alias") else []:
+                    if t is target or id(t) in seen2:
+                        continue
+                    seen2.add(id(t))
+                    if t.kind in ("message", "array") and t.ext:
+                        inner.append((t, d))
+                if inner:
+                    t, d = r.choice(inner)
+                    if t.kind == "message":
+                        self.grow_message(t, d + 1, done)
+                    else:
+                        self.grow_array(t, d + 1, done)
         return done
+
+    def grow_message(self, m, depth, done):
+        before = (list(m.fields), list(m.nested), list(self.s.defs))
+        n = self.append_fields(m)
+        if not fits(self.s):
+            m.fields, m.nested, self.s.defs = before
+            return False
+        done.append({"step": "append", "message": ".".join(m.path()), "fields": n, "depth": depth})
+        return True
+
+    def grow_array(self, a, depth, done):
+        r = self.rng
+        old = a.cap
+        a.cap = min(65535, old + r.choice([1, 1, 2, 3, old, old * 2 + 1, 7]))
+        if not fits(self.s):
+            a.cap = old
+            return False
+        done.append({"step": "grow", "from": old, "to": a.cap, "depth": depth})
+        return True
 
 
 def gen_lineage(seed: int):
